@@ -1018,8 +1018,29 @@ func (g *Gen) contentBytes() []byte {
 	if len(g.contentPool) > 0 && g.chance(0.55) {
 		return g.contentPool[g.R.Intn(len(g.contentPool))]
 	}
+	if len(g.contentPool) > 0 && g.chance(0.25) {
+		// a sibling of an earlier hash: last or first byte changed, one byte shorter or longer
+		o := g.contentPool[g.R.Intn(len(g.contentPool))]
+		b := append([]byte(nil), o...)
+		switch g.R.Intn(4) {
+		case 0:
+			b[len(b)-1] ^= byte(1 + g.R.Intn(255))
+		case 1:
+			b[0] ^= byte(1 + g.R.Intn(255))
+		case 2:
+			if len(b) > 20 {
+				b = b[:len(b)-1]
+			}
+		default:
+			if len(b) < 64 {
+				b = append(b, byte(g.R.Intn(256)))
+			}
+		}
+		g.contentPool = append(g.contentPool, b)
+		return b
+	}
 	h := sha256.Sum256([]byte(fmt.Sprintf("content-%d", g.R.Intn(1<<30))))
-	n := []int{32, 20, 64, 32, 32, 48}[g.R.Intn(6)]
+	n := []int{32, 20, 64, 32, 63, 48, 64, 21}[g.R.Intn(8)]
 	b := append([]byte(nil), h[:]...)
 	for len(b) < n {
 		b = append(b, h[:]...)
